@@ -140,9 +140,9 @@ SOURCE_TIES = {
     'Huffman decoder': {'unit': 'SrcHuff', 'module': 'HpackVerif.Props.SrcHuff', 'audit': 'AuditSrcHuff.lean',
                         'users': {'C13', 'C05', 'C04', 'C02'}},
     'Decoder methods': {'unit': 'SrcDec', 'module': 'HpackVerif.Props.SrcDec', 'audit': 'AuditSrcDec.lean',
-                        'users': {'C02', 'C04', 'C05', 'C07', 'C08', 'C15', 'C17'}},
+                        'users': {'C02', 'C04', 'C05', 'C07', 'C08', 'C15', 'C17', 'C20'}},
     'Encoder methods': {'unit': 'SrcEnc', 'module': 'HpackVerif.Props.SrcEnc', 'audit': 'AuditSrcEnc.lean',
-                        'users': {'C03', 'C19', 'C15', 'C09', 'C01'}},
+                        'users': {'C03', 'C19', 'C15', 'C09', 'C01', 'C20'}},
     'Encoder.encode': {'unit': 'SrcEnc', 'module': 'HpackVerif.Props.SrcEncApi', 'audit': 'AuditSrcEncApi.lean',
                        'needs': ['_to_bytes', '_dict_to_iterable', 'Encoder.encode'],
                        'users': {'C18', 'C01', 'C03', 'C09', 'C15'}},
@@ -164,7 +164,7 @@ SOURCE_TIES = {
     'Huffman encoder': {'unit': 'SrcHuffEnc', 'module': 'HpackVerif.Props.SrcHuffEnc', 'audit': 'AuditSrcHuffEnc.lean',
                         'users': {'C12', 'C03', 'C01'}},
     'header table': {'unit': 'SrcTable', 'module': 'HpackVerif.Props.SrcTable', 'audit': 'AuditSrcTable.lean',
-                     'users': {'C06', 'C14', 'C10', 'C08', 'C19'}},
+                     'users': {'C06', 'C14', 'C10', 'C08', 'C19', 'C20'}},
 }
 SOURCE_TIE_USERS = set().union(*[v['users'] for v in SOURCE_TIES.values()])
 
